@@ -35,6 +35,20 @@ structure BVertex where
   switchStart : Option Nat := none
   /-- `SwitchEnd(switch_id)` markers of a label, in the order they were added -/
   switchEnds : List Nat := []
+  /-- `SsbLabel.force_write` (`remove_label_markers`) -/
+  forceWrite : Bool := false
+  /-- `SwitchFalltrough` marker of a label (`build_switch_fallthroughs`) -/
+  fallthrough : Bool := false
+  /-- `ForeverStart(loop_id)` marker (`build_loops`; a label, or - never on real runs - a label jump without marker) -/
+  foreverStart : Option Nat := none
+  /-- `ForeverEnd(loop_id)` markers, in the order they were added -/
+  foreverEnds : List Nat := []
+  /-- `ForeverBreak(loop_id)` marker of a label jump -/
+  foreverBreak : Option Nat := none
+  /-- `ForeverContinue(loop_id)` marker of a label jump -/
+  foreverContinue : Option Nat := none
+  /-- a vertex `build_loops` has inserted: `SsbLabelJump(copy of the root of the source vertex, None)`; `op` holds the copy -/
+  synthetic : Bool := false
 deriving DecidableEq, Repr
 
 structure BEdge where
@@ -61,7 +75,7 @@ def BEdge.ofEdge (e : Edge) : BEdge := ⟨e.src, e.dst, e.level, e.loop, false, 
 
 /-- the graph that leaves `optimize_paths`, with the vertex names (by vertex id); no markers, no else-edges -/
 def BGraph.ofGraph (names : List (Option Nat)) (g : Graph) : BGraph :=
-  ⟨g.vs.zipIdx.map fun p => ⟨(names[p.2]?).join, p.1, none, [], [], false, none, []⟩, g.es.map BEdge.ofEdge⟩
+  ⟨g.vs.zipIdx.map fun p => ⟨(names[p.2]?).join, p.1, none, [], [], false, none, [], false, false, none, [], none, none, false⟩, g.es.map BEdge.ofEdge⟩
 
 /-- vertex names of a base graph: item vertices are "v<i>", foreign label vertices (appended behind the items)
 are "FLR<from…>" -/
@@ -136,7 +150,7 @@ def setElse (g : BGraph) (i : Nat) : BGraph :=
 /-- `SsbLabelJump.add_marker` raises ValueError when the jump already carries a marker (CallJump, IfStart) -/
 def hasMarker (g : BGraph) (v : Nat) : Bool :=
   match g.vs[v]? with
-  | some ⟨_, .item (.ljump _ _ call), ifs, _, _, _, _, _⟩ => call || ifs.isSome
+  | some ⟨_, .item (.ljump _ _ call), ifs, _, _, _, _, _, _, _, _, _, _, _, _⟩ => call || ifs.isSome
   | _ => false
 
 /-- `_goes_back(e)`: both ends are named "v<i>" and the target's original index is not behind the source's -/
